@@ -32,18 +32,18 @@ CLAIMS = {
  "C12": dict(text="Proved about the sponge model (any permutation): absorbing a message equals absorbing any 2-split of it (shake128/256 absorb_split), squeezing n bytes = the first n bytes of the block stream, squeezing in two calls = one call (squeeze_split), squeezeblocks = whole blocks of the same stream; rates/round-constant table obligations on the constants regenerated from fips202.rs. Tie: SHAKE model = code = hashlib on every input length 0..3*rate+1, input/output splits, long squeezes, mixed squeezeblocks, absorb_once, stream inits, the permutation on random states. A genuine defect (squeeze index reset per block) was reported by this check and fixed.",
              note="PARTIAL: Keccak-f[1600] itself is not proved equal to the FIPS 202 step maps; it is tied to hashlib (and to the code) on the explored inputs.",
              tech="Lean 4 proof (sponge invariants by induction) + differential tie with hashlib as independent oracle", ref="5/C12"),
- "C04": dict(text="The Lean KeyGen model is validated on every run against OpenSSL 3.5.5 ML-DSA-44/65/87 vectors (60) and the NIST Dilithium vectors in the repo's tests, and the code must equal the model byte for byte on KAT, edge and random seeds, seeded and unseeded (RNG tap), raw and API entry points, wrong seed lengths refused. Proved: seeded generation draws nothing and refuses other lengths; unseeded = seeded on the next 32 tape bytes. A genuine defect (ML-DSA-65/87 seed domain separation) was reported by this check and fixed.",
-             note="PARTIAL: the algebraic relation t1*2^13+t0 = A s1 + s2 is not yet a theorem; it is implied for the tied inputs by agreement with the KAT-anchored model.",
-             tech="Lean 4 proof (structural) + KAT-anchored differential tie", ref="5/C04"),
+ "C04": dict(text="Proved for all six sets and every seed on which the key-generation core succeeds (C04.keygen_relation): the expanded matrix is well formed with entries in [0,q), s1/s2 are in [-4,4], t1 in [0,2^10), t0 in (-2^12,2^12], and t1*2^13 + t0 = A s1 + s2 in Z_q[X]/(X^256+1) (stated at the 256 NTT points in Z/q, which determine the polynomial), every arithmetic step shown free of overflow on the checked-semantics model. Also: seeded generation draws nothing and refuses other lengths; unseeded = seeded on the next 32 tape bytes. Tie: the Lean KeyGen model is validated on every run against 60 OpenSSL 3.5.5 ML-DSA-44/65/87 vectors and the NIST Dilithium vectors, and the code must equal the model byte for byte on KAT, edge and random seeds, seeded and unseeded (RNG tap), raw and API entry points. A genuine defect (ML-DSA-65/87 seed domain separation) was reported by this check and fixed.",
+             note="PARTIAL: that rho, rho', K are the specified SHAKE outputs of the seed (and the sampler = FIPS 204 RejNTTPoly/RejBoundedPoly) rests on the KAT-anchored tie; packing of the key parts into pk/sk is C16.",
+             tech="Lean 4 proof (range analysis + NTT semantics in Z/q, structural) + KAT-anchored differential tie", ref="5/C04"),
  "C11": dict(text="Container identities proved: from_bytes accepts exactly length N and stores the bytes unchanged, any other length is refused, Keypair bytes = sk || pk and parsing splits exactly there, standard lengths. Tie: 18 containers at lengths N, N+-1, 0, 1, sizes of other containers; signing through a container = signing with the bytes.",
              note="Refusal = the Rust expect() panic observed under catch_unwind.",
              tech="Lean 4 proof + differential tie", ref="5/C11"),
  "C07": dict(text="Proved: framing = FIPS 204 M' (absent ctx = empty), OIDs = DER of id-sha256/512 and equal to every copy's constants, ctx > 255 gives none/false without drawing randomness, framing injective (pure, pre-hash, across modes), and acceptance of one signature for two different representatives yields an explicit SHAKE-256 collision (mu-level or c~-level). Tie: API signature = raw signature of the independently built M' for ctx lengths none/0/1/2/254/255/256/257/1000 and 3 modes; all ordered framing pairs verify/reject as required, incl. same ctx||M with a different split.",
              note="'never verifies under another framing' is proved in the only form possible without a hardness assumption: as the construction of a collision.",
              tech="Lean 4 proof + multi-stage differential tie", ref="5/C07"),
- "C01": dict(text="Proved (loop logic): the signing loop returns exactly the packed output of the first accepted iteration, gives up only if all iterations within the fuel were rejected. NOT proved: the algebraic completeness lemma (accepted iteration => verify accepts) and termination (a statement about SHAKE outputs): partial. Tie: sign-then-verify through every entry point (raw/API, deterministic, hedged/randomized with the real RNG, contexts 0..255, SHA-256/512 pre-hash, seeded/unseeded keys, block-straddling message lengths), exact length.",
-             note="PARTIAL: completeness on the explored inputs is observed on the code (and equals the model); termination is observed, not proved.",
-             tech="Lean 4 proof (loop invariant) + sign/verify differential tie", ref="5/C01"),
+ "C01": dict(text="Proved: (1) loop logic: the signing loop returns exactly the packed output of the first accepted iteration, gives up only if all iterations within the fuel were rejected; (2) completeness of an iteration (C01.accepted_iteration_verifies), for all six sets, every key satisfying the key-generation facts of C04.keygen_relation and every mu, rho', nonce: an accepted iteration emits the packing of (c~, z, h) with c~ = H(mu || w1Encode(w1)) and |z| < gamma1 - beta, and the verifier's reconstruction (A z - c t1 2^13, UseHint, w1Encode) on it succeeds without overflow and returns exactly w1Encode(w1) - proved through every arithmetic step of the checked-semantics model (NTT, Montgomery products, lazy reductions, Decompose, MakeHint/UseHint) with its range analysis. NOT proved: that unpack_sig/unpack_pk/unpack_sk invert the packing of hints and containers (z, t1, t0, eta round trips are proved in C16), and termination (a statement about SHAKE outputs): partial. Tie: sign-then-verify through every entry point (raw/API, deterministic, hedged/randomized with the real RNG, contexts 0..255, SHA-256/512 pre-hash, seeded/unseeded keys, block-straddling message lengths), exact length.",
+             note="PARTIAL: the byte-level glue (hint section and container round trips) and termination are observed on the explored inputs, not proved.",
+             tech="Lean 4 proof (loop invariant; ring semantics of the model in Z/q, range analysis by omega) + sign/verify differential tie", ref="5/C01"),
  "C02": dict(text="Proved: length gate (every truncation/extension is false without decoding), message/context/mode/hash binding and key binding with an explicit SHAKE-256 collision as conclusion. Not provable (SUF-CMA): rejection of a different (c~,z,h) - covered by the exhaustive single-bit-flip scan per sampled signature (all 8*SIGNBYTES flips, all truncations, all message bit flips/prefixes) on both builds.",
              note="PARTIAL by nature: signature-bit flips rest on observation; binding theorems conclude collisions, they do not assume collision resistance.",
              tech="Lean 4 proof (collision-extraction) + exhaustive alteration scans on the implementation", ref="5/C02"),
